@@ -516,6 +516,7 @@ func TestVerifC02(t *testing.T) {
 
 	only := os.Getenv("VERIF_ONLY")
 	var parts []vx.Part
+	byScenario := map[string]interface{}{}
 	for _, p := range prods {
 		if only != "" && !strings.Contains(","+only+",", ","+p.Scenario+",") {
 			continue
@@ -525,8 +526,13 @@ func TestVerifC02(t *testing.T) {
 		st := p.Explore(h, exec)
 		fmt.Printf("scenario %-12s executions=%d outcomes=%d exhaustive=%v wall=%.1fs\n", p.Scenario, st.Executions, len(st.Outcomes), st.Exhaustive, time.Since(t0).Seconds())
 		parts = append(parts, vx.Part{Scenario: p.Scenario, Stats: st, Exec: exec})
+		if len(st.Outcomes) <= 150 {
+			byScenario[p.Scenario] = st.Outcomes
+		} else {
+			byScenario[p.Scenario] = fmt.Sprintf("%d distinct outcomes (histogram omitted)", len(st.Outcomes))
+		}
 	}
-	extra := map[string]interface{}{}
+	extra := map[string]interface{}{"outcome_histogram_by_scenario": byScenario}
 	if h.srv != nil {
 		extra["http_requests_seen_by_scripted_server"] = atomic.LoadInt64(&h.srv.nreq)
 	}
